@@ -27,4 +27,116 @@ CONSTANTS = {
         ("VIEW_LT_INLINE_R", "arrow-ord/src/cmp.rs", r"if \(\*l_view as u32\)\s*<=\s*\d+\s*&&\s*\(\*r_view as u32\)\s*<=\s*(\d+)\s*\{", "int"),
     ],
 }
+
+# ---- shapes of critical expressions: kind "intlist" with an EMPTY group yields `[]` while the
+# expression is present and LOST (`<name>_lost = true`) after an edit; `source_shape_ties` in
+# Theorems.lean requires every `_lost` to be false.
+W = r"\s*"
+def shape(*parts):
+    """whitespace-tolerant literal match of the given source fragments, empty trailing group"""
+    import re
+    return W.join(W.join(re.escape(tok) for tok in part.split()) for part in parts) + r"()"
+
+SHAPES = [
+    ("SHAPE_CHILD_OPTS", "arrow-cmp/src/lib.rs",
+     shape("fn child_opts(opts: SortOptions) -> SortOptions {", "SortOptions {", "descending: false,",
+           "nulls_first: opts.nulls_first != opts.descending,", "}")),
+    ("SHAPE_CHILD_RANK", "arrow-ord/src/sort.rs",
+     shape("let value_options = Some(SortOptions {", "descending: false,",
+           "nulls_first: options.nulls_first != options.descending,", "});", "rank(values, value_options)")),
+    ("SHAPE_COMPARE_DISPATCH", "arrow-cmp/src/lib.rs",
+     shape("match (opts.nulls_first, opts.descending) {", "(true, true) => compare_impl::<true, true, _>(l, r, cmp),",
+           "(true, false) => compare_impl::<true, false, _>(l, r, cmp),", "(false, true) => compare_impl::<false, true, _>(l, r, cmp),",
+           "(false, false) => compare_impl::<false, false, _>(l, r, cmp),")),
+    ("SHAPE_COMPARE_NULL_FILTER", "arrow-cmp/src/lib.rs",
+     shape("let l = l.logical_nulls().filter(|x| x.null_count() > 0);", "let r = r.logical_nulls().filter(|x| x.null_count() > 0);")),
+    ("SHAPE_COMPARE_IMPL_DESC", "arrow-cmp/src/lib.rs",
+     shape("let cmp = move |i, j| match DESCENDING {", "true => cmp(i, j).reverse(),", "false => cmp(i, j),", "};")),
+    ("SHAPE_COMPARE_IMPL_NULLS", "arrow-cmp/src/lib.rs",
+     shape("let (left_null, right_null) = match NULLS_FIRST {", "true => (Ordering::Less, Ordering::Greater),",
+           "false => (Ordering::Greater, Ordering::Less),", "};")),
+    ("SHAPE_COMPARE_IMPL_ARMS", "arrow-cmp/src/lib.rs",
+     shape("(Some(l), None) => Box::new(move |i, j| match l.is_null(i) {", "true => left_null,", "false => cmp(i, j),", "}),",
+           "(None, Some(r)) => Box::new(move |i, j| match r.is_null(j) {", "true => right_null,", "false => cmp(i, j),", "}),",
+           "(Some(l), Some(r)) => Box::new(move |i, j| match (l.is_null(i), r.is_null(j)) {", "(true, true) => Ordering::Equal,",
+           "(true, false) => left_null,", "(false, true) => right_null,", "(false, false) => cmp(i, j),")),
+    ("SHAPE_LIST_LOOP", "arrow-cmp/src/lib.rs",
+     shape("for (i, j) in (l_start..l_end).zip(r_start..r_end) {", "match cmp(i, j) {", "Ordering::Equal => {}", "r => return r,", "}", "}",
+           "(l_end - l_start).cmp(&(r_end - r_start))")),
+    ("SHAPE_FLOAT_COMPARE", "arrow-array/src/arithmetic.rs",
+     shape("fn compare(self, rhs: Self) -> Ordering {", "<$t>::total_cmp(&self, &rhs)", "}")),
+    ("SHAPE_FLOAT_IS_EQ", "arrow-array/src/arithmetic.rs", shape("self.to_bits() == rhs.to_bits()")),
+    ("SHAPE_INT_COMPARE", "arrow-array/src/arithmetic.rs",
+     shape("fn compare(self, rhs: Self) -> Ordering {", "self.cmp(&rhs)", "}")),
+    ("SHAPE_SORT_BYTES_CMP", "arrow-ord/src/sort.rs",
+     shape("let ord = pa.cmp(&pb);", "if ord != Ordering::Equal {", "return ord;", "}")
+     + W + r"(?://[^\n]*\n\s*)*" + shape("if la < 4 || lb < 4 {", "let ord = la.cmp(&lb);", "if ord != Ordering::Equal {", "return ord;", "}", "}")[:-2]
+     + W + r"(?://[^\n]*\n\s*)*" + shape("let a_bytes: &[u8] = values.value_unchecked(ia as usize).as_ref();",
+           "let b_bytes: &[u8] = values.value_unchecked(ib as usize).as_ref();", "a_bytes.cmp(b_bytes)")),
+    ("SHAPE_SORT_BYTES_PREFIX", "arrow-ord/src/sort.rs",
+     shape("for &b in slice {", "v = (v << 8) | (b as u32);", "}")),
+    ("SHAPE_SORT_IMPL_VLIMIT", "arrow-ord/src/sort.rs",
+     shape("let v_limit = match (limit, options.nulls_first) {", "(Some(l), true) => l.saturating_sub(nulls.len()).min(valids.len()),",
+           "_ => valids.len(),", "};")),
+    ("SHAPE_SORT_IMPL_DESC", "arrow-ord/src/sort.rs",
+     shape("match options.descending {", "false => sort_unstable_by(valids, v_limit, |a, b| cmp(a.1, b.1)),",
+           "true => sort_unstable_by(valids, v_limit, |a, b| cmp(a.1, b.1).reverse()),", "}")),
+    ("SHAPE_SORT_IMPL_ASSEMBLY", "arrow-ord/src/sort.rs",
+     shape("let len = valids.len() + nulls.len();", "let limit = limit.unwrap_or(len).min(len);", "let mut out = Vec::with_capacity(len);",
+           "match options.nulls_first {", "true => {", "out.extend_from_slice(&nulls[..nulls.len().min(limit)]);",
+           "let remaining = limit - out.len();", "out.extend(valids.iter().map(|x| x.0).take(remaining));", "}", "false => {",
+           "out.extend(valids.iter().map(|x| x.0).take(limit));", "let remaining = limit - out.len();",
+           "out.extend_from_slice(&nulls[..remaining])", "}", "}")),
+    ("SHAPE_SORT_UNSTABLE_BY", "arrow-ord/src/sort.rs",
+     shape("if array.len() == limit {", "array.sort_unstable_by(cmp);", "} else {", "partial_sort(array, limit, cmp);", "}")),
+    ("SHAPE_PARTIAL_SORT", "arrow-ord/src/sort.rs",
+     shape("if let Some(n) = limit.checked_sub(1) {", "let (before, _mid, _after) = v.select_nth_unstable_by(n, &mut is_less);",
+           "before.sort_unstable_by(is_less);", "}")),
+    ("SHAPE_LEXSORT_HEAP_GUARD", "arrow-ord/src/sort.rs", shape("Some(limit) if limit <= row_count / 10 => match columns.len() {")),
+    ("SHAPE_LEXSORT_TRUNCATE", "arrow-ord/src/sort.rs", shape("value_indices.truncate(len);", "value_indices")),
+    ("SHAPE_LEXSORT_TOPK", "arrow-ord/src/sort.rs",
+     shape("if heap.len() < limit {", "heap.push(idx);", "let pos = heap.len() - 1;", "sift_up_worst_heap(&mut heap, pos, &mut compare);",
+           "} else if compare(idx, heap[0]) == Ordering::Less {", "heap[0] = idx;", "sift_down_worst_heap(&mut heap, 0, &mut compare);", "}", "}",
+           "heap.sort_unstable_by(|a, b| compare(*a, *b));", "heap")),
+    ("SHAPE_LEX_COMPARE", "arrow-ord/src/sort.rs",
+     shape("for comparator in &self.compare_items {", "match comparator(a_idx, b_idx) {", "Ordering::Equal => {}", "r => return r,", "}", "}", "Ordering::Equal")),
+    ("SHAPE_RANK_SORT", "arrow-ord/src/rank.rs",
+     shape("valid.sort_unstable_by(|a, b| compare(a.0, b.0));", "if options.descending {", "valid.reverse();", "}")),
+    ("SHAPE_RANK_INIT", "arrow-ord/src/rank.rs",
+     shape("let (mut valid_rank, null_rank) = match options.nulls_first {", "true => (len as u32, (len - valid.len()) as u32),",
+           "false => (valid.len() as u32, len as u32),", "};")),
+    ("SHAPE_RANK_LOOP", "arrow-ord/src/rank.rs",
+     shape("for w in valid.windows(2).rev() {", "match eq(w[0].0, w[1].0) {", "true => {", "count += 1;", "out[w[0].1 as usize] = valid_rank;", "}",
+           "false => {", "valid_rank -= count;", "count = 1;", "out[w[0].1 as usize] = valid_rank", "}", "}", "}")),
+    ("SHAPE_PARTITION_OR", "arrow-ord/src/partition.rs", shape(".try_fold(acc, |acc, c| find_boundaries(c.as_ref()).map(|b| &acc | &b))?;")),
+    ("SHAPE_PARTITION_BOUNDS", "arrow-ord/src/partition.rs",
+     shape("let slice_len = v.len() - 1;", "let v1 = v.slice(0, slice_len);", "let v2 = v.slice(1, slice_len);")),
+    ("SHAPE_PARTITION_CMP", "arrow-ord/src/partition.rs", shape("Ok((0..slice_len).map(|i| !cmp(i, i).is_eq()).collect())")),
+    ("SHAPE_PARTITION_RANGES", "arrow-ord/src/partition.rs",
+     shape("for idx in boundaries.set_indices() {", "let t = current;", "current = idx + 1;", "out.push(t..current)", "}",
+           "let last = boundaries.len() + 1;", "if current != last {", "out.push(current..last)", "}")),
+    ("SHAPE_CMP_DISTINCT", "arrow-ord/src/cmp.rs", shape("let c = |((l, r), n)| (l ^ r) | (l & r & n);")),
+    ("SHAPE_CMP_NOT_DISTINCT", "arrow-ord/src/cmp.rs", shape("let c = |((l, r), e)| u64::not(l | r) | (l & r & e);")),
+    ("SHAPE_CMP_DISTINCT_ONE", "arrow-ord/src/cmp.rs", shape("let c = |(l, n)| u64::not(l) | n;")),
+    ("SHAPE_CMP_NOT_DISTINCT_ONE", "arrow-ord/src/cmp.rs", shape("Op::NotDistinct => (nulls.inner() & &values()).into(),")),
+    ("SHAPE_CMP_UNION_NULLS", "arrow-ord/src/cmp.rs", shape("_ => BooleanArray::new(values(), NullBuffer::union(Some(&l), Some(&r))),")),
+    ("SHAPE_CMP_APPLY_TABLE", "arrow-ord/src/cmp.rs",
+     shape("Op::Equal | Op::NotDistinct => apply_op(l, l_s, r, r_s, false, T::is_eq),", "Op::NotEqual | Op::Distinct => apply_op(l, l_s, r, r_s, true, T::is_eq),",
+           "Op::Less => apply_op(l, l_s, r, r_s, false, T::is_lt),", "Op::LessEqual => apply_op(r, r_s, l, l_s, true, T::is_lt),",
+           "Op::Greater => apply_op(r, r_s, l, l_s, false, T::is_lt),", "Op::GreaterEqual => apply_op(l, l_s, r, r_s, true, T::is_lt),")),
+    ("SHAPE_CMP_APPLY_TABLE_VEC", "arrow-ord/src/cmp.rs",
+     shape("Op::Equal | Op::NotDistinct => apply_op_vectored(l, &l_v, r, &r_v, false, T::is_eq),", "Op::NotEqual | Op::Distinct => apply_op_vectored(l, &l_v, r, &r_v, true, T::is_eq),",
+           "Op::Less => apply_op_vectored(l, &l_v, r, &r_v, false, T::is_lt),", "Op::LessEqual => apply_op_vectored(r, &r_v, l, &l_v, true, T::is_lt),",
+           "Op::Greater => apply_op_vectored(r, &r_v, l, &l_v, false, T::is_lt),", "Op::GreaterEqual => apply_op_vectored(l, &l_v, r, &r_v, true, T::is_lt),")),
+    ("SHAPE_CMP_INLINE_SCALAR", "arrow-ord/src/cmp.rs",
+     shape("let significant = u64::MAX >> (32 - needle_len * 8);", "let needle = needle as u64 & significant;")),
+    ("SHAPE_VIEW_INLINE_KEY", "arrow-array/src/array/byte_view_array.rs", shape("(raw.swap_bytes() << 32) | (raw as u32 as u128)")),
+    ("SHAPE_IN_LIST_EQ", "arrow-ord/src/comparison.rs", shape("if list.is_valid(j) && (left.value(i) == list.value(j)) {")),
+]
+CONSTANTS["C10"] += [(name, path, pat, "intlist") for (name, path, pat) in SHAPES]
+CONSTANTS["C10"] += [
+    ("MAX_LOW_HALF_LEN", "arrow-ord/src/cmp.rs", r"const MAX_LOW_HALF_LEN:\s*u32\s*=\s*(\d+);", "int"),
+    ("LEXSORT_HEAP_DIVISOR", "arrow-ord/src/sort.rs", r"Some\(limit\) if limit <= row_count / (\d+) =>", "int"),
+]
+
 FUNCTIONS = {}
